@@ -132,6 +132,23 @@ def diff_specs(tier):
                 indicators=[{"id": "u", "kind": "Utilization", "resource": "w0"},
                             {"id": "c", "kind": "ResourceCost", "resources": ["w0"]},
                             {"id": "n", "kind": "NbTasksAssigned", "resource": "w0"}])))
+    # an optional LONG task reached through a selection / a cumulative worker whose every candidate is busy from instant 0
+    # (whatever the unscheduled task still occupies next to its past instant collides with the others)
+    for dur in (3, 5):
+        out.append((f"long_unscheduled.selection.d{dur}", families.base(
+            2, [families.fx("o", dur, optional=True), families.fx("t1", 2), families.fx("t2", 2)],
+            workers=[{"name": "w0"}, {"name": "w1"}],
+            selections=[{"id": "s0", "workers": ["w0", "w1"], "n": 1, "kind": "exact"}],
+            requirements=[{"task": "o", "resource": "s0"}, {"task": "t1", "resource": "w0"},
+                          {"task": "t2", "resource": "w1"}])))
+        out.append((f"long_unscheduled.cumulative.d{dur}", families.base(
+            2, [families.fx("o", dur, optional=True), families.fx("t1", 2), families.fx("t2", 2)],
+            cumulative=[{"name": "cu", "size": 2}],
+            requirements=[{"task": "o", "resource": "cu"}, {"task": "t1", "resource": "cu"},
+                          {"task": "t2", "resource": "cu"}])))
+        out.append((f"long_unscheduled.worker.d{dur}", families.base(
+            2, [families.vr("o", dur, dur + 1, optional=True), families.fx("t1", 2)], workers=[{"name": "w0"}],
+            requirements=[{"task": "o", "resource": "w0"}, {"task": "t1", "resource": "w0"}])))
     # buffers with an optional accessing task
     for conc in (False, True):
         for kind in ("TaskUnloadBuffer", "TaskLoadBuffer"):
